@@ -297,7 +297,11 @@ func (c06Engine) Gen(job *Job) *Case {
 			}
 			e = Env{Repeat: k}
 		}
-		if !fresh && i == 1 && r.Chance(1, 7) {
+		concOdds := 7
+		if len(c.Project.Files) >= 3 {
+			concOdds = 3 // several files: whatever is kept per file name or per include is what concurrent builds could share
+		}
+		if !fresh && i == 1 && r.Chance(1, concOdds) {
 			// one repetition concurrently with other builds, canonical map order
 			e = Env{Ambient: e.Ambient, Conc: r.Range(1, 2), ConcSeed: r.U64()}
 		}
@@ -440,6 +444,18 @@ func observeConc(c *Case, e Env, seed uint64) (string, string) {
 				call(o.japi, "ToOpenAPIJson")
 			}
 		})
+	}
+	if pr.Chance(2, 3) {
+		// one of the other builds is a second build of the SAME project, at the same paths (two
+		// requests for the same document): whatever is shared per file name is shared now
+		fns = append(fns, func() {
+			if o := buildCase(c); o.OK {
+				call(o.japi, "ToJson")
+			}
+		})
+		if pr.Chance(1, 2) {
+			fns = append(fns, func() { buildCase(c) })
+		}
 	}
 	raceDelta()
 	rep := simrt.Run(simrt.Config{Seed: e.ConcSeed, Strategy: int(e.ConcSeed % simrt.NumStrategies), SwitchDen: 8, ChangePoints: 3, Horizon: 2000, Pool: simrt.PoolConfig{Policy: simrt.PoolIsolating}}, fns...)
